@@ -221,6 +221,16 @@ def leftmostname(node):
     return rtn
 
 
+def _stored_names(targ):
+    """Names bound by an assignment target, including nested ones:
+    ``z, (y, n) = ...``, ``[a, *b] = ...``."""
+    if isinstance(targ, Tuple | List):
+        for elt in targ.elts:
+            yield from _stored_names(elt)
+    else:
+        yield leftmostname(targ)
+
+
 def _deleted_names(targ):
     """Names unbound by a ``del`` target: ``del n``, ``del (n, m)``, ``del [n]``."""
     if isinstance(targ, Name):
@@ -703,7 +713,7 @@ class CtxAwareTransformer(NodeTransformer):
         ups = set()
         for targ in node.targets:
             if isinstance(targ, Tuple | List):
-                ups.update(leftmostname(elt) for elt in targ.elts)
+                ups.update(_stored_names(targ))
             elif isinstance(targ, BinOp):
                 newnode = self.try_subproc_toks(node)
                 if newnode is node:
